@@ -169,7 +169,7 @@ func allScenarios() []scenBuilder {
 			return []*Scen{newScen("p0", b, v), newScen("p0early", b, ve)}, nil
 		}},
 		{"nofin", func(tier string, rng *rand.Rand) ([]*Scen, error) {
-			b, err := buildNofin(38)
+			b, err := buildNofin(12)
 			if err != nil {
 				return nil, err
 			}
